@@ -118,6 +118,16 @@ func OracleDirect(in *In, o *Out) string {
 		return ""
 	}
 	if o.Err {
+		// an error is right only if the matrix is not (safely) positive definite:
+		// exact rational elimination on the symmetric completion of the lower triangle
+		if in.Kind == "chol" || in.Kind == "ldl" {
+			if minp, ok := exactPivots(toRM(symmetrize(in.M))); ok {
+				thr := new(big.Rat).Mul(toRM(in.M).maxAbs(), eps24)
+				if minp.Cmp(thr) > 0 {
+					return fmt.Sprintf("chol-spurious-error: %s reports \"not positive definite\" although every exact pivot is >= %s", in.Kind, fl(minp))
+				}
+			}
+		}
 		return ""
 	}
 	for _, m := range o.Ms {
@@ -627,4 +637,33 @@ func classOf(f string) string {
 		}
 	}
 	return f
+}
+
+// smallest pivot of the exact LDL^T elimination (ok = false if a pivot is <= 0)
+func exactPivots(a *RM) (*big.Rat, bool) {
+	n := a.R
+	m := make([][]*big.Rat, n)
+	for i := range m {
+		m[i] = make([]*big.Rat, n)
+		for j := range m[i] {
+			m[i][j] = new(big.Rat).Set(a.At(i, j))
+		}
+	}
+	var minp *big.Rat
+	for k := 0; k < n; k++ {
+		p := m[k][k]
+		if p.Sign() <= 0 {
+			return nil, false
+		}
+		if minp == nil || p.Cmp(minp) < 0 {
+			minp = new(big.Rat).Set(p)
+		}
+		for i := k + 1; i < n; i++ {
+			f := new(big.Rat).Quo(m[i][k], p)
+			for j := k + 1; j < n; j++ {
+				m[i][j].Sub(m[i][j], new(big.Rat).Mul(f, m[k][j]))
+			}
+		}
+	}
+	return minp, true
 }
